@@ -60,7 +60,7 @@ class Layout:
             t = self.j(v, '.Trash')
             # the sticky bit is what counts, whatever the other bits: setgid / setuid without sticky is NOT sticky
             sticky_mode = rng.choice([0o1777, 0o1777, 0o1755, 0o3777, 0o1700])
-            plain_mode = rng.choice([0o755, 0o755, 0o777, 0o2777, 0o2775, 0o4755, 0o6777])
+            plain_mode = rng.choice([0o755, 0o755, 0o777, 0o2777, 0o2775, 0o4755, 0o6777, 0o700, 0o750])    # (private to its owner is still not sticky)
             if st == 'sticky':
                 self.tree.append(['d', t, sticky_mode])
             elif st == 'nonsticky':
